@@ -87,6 +87,23 @@ class Engine(object):
                 return r[1].name + "." + r[2]
         return None
 
+    def class_rules(self, templates):
+        """picklable class-hierarchy facts for the lemma instantiator: relations between every pair of isa_*
+        predicates that occur in the registered UFS, and the ids of each predicate's descendants"""
+        preds = sorted(n[4:].replace("__", ".") for n in UFS if n.startswith("isa_"))
+        if not preds:
+            return None
+        ci = self.classinfo()
+        preds = [q for q in preds if q in ci.desc]
+        rel = {}
+        for i, a in enumerate(preds):
+            for b in preds[i + 1 :]:
+                r = ci.relation(a, b)
+                if r != "overlap":
+                    rel[(a, b)] = r
+        ids = {q: ci.ids(q) for q in preds if len(ci.ids(q)) <= 800}
+        return {"rel": rel, "ids": ids}
+
     def side_axioms(self, terms):
         """class-hierarchy facts for the isa_* / cls terms of one VC, from the real class table"""
         from .terms import And, Implies, Not, Or, subterms
@@ -97,6 +114,8 @@ class Engine(object):
         per_obj = {}
         clsterms = {}
         for t in seen.values():
+            if "!q" in str(t.args[0]) if t.args and hasattr(t.args[0], "op") else False:
+                continue
             if t.op.startswith("isa_"):
                 per_obj.setdefault(str(t.args[0]), (t.args[0], {}))[1][t.op[4:].replace("__", ".")] = t
             elif t.op == "cls":
@@ -319,16 +338,19 @@ def discharge_one(job):
         return {"name": name, "kind": kind, "verdict": "error", "error": traceback.format_exc(), "wall": time.time() - t0, "log": []}
 
 
-VAL_DECL = "(declare-datatypes ((Val 0)) (((VInt (vint Int)) (VStr (vstr String)) (VNone))))"
+VAL_DECL = "(declare-datatypes ((Val 0)) (((VInt (vint Int)) (VStr (vstr String)))))"
 
 
 def discharge(obls, timeout=10, workers=None, engine=None):
     templates = dict(engine.hom_templates) if engine is not None else {}
     ufs = dict(UFS)
     jobs = []
+    clsinfo = engine.class_rules(templates) if engine is not None else None
+    if clsinfo is not None:
+        templates = dict(templates)
+        templates["#classes"] = clsinfo
     for o in obls:
-        extra = engine.side_axioms(o.assumptions + [o.goal]) if engine is not None else []
-        jobs.append((o.name, o.assumptions + extra, o.goal, timeout, o.kind, templates, ufs, [VAL_DECL]))
+        jobs.append((o.name, o.assumptions, o.goal, timeout, o.kind, templates, ufs, [VAL_DECL]))
     workers = workers or min(16, os.cpu_count() or 4)
     out = []
     if not jobs:
